@@ -77,4 +77,23 @@ theorem c07_single_col_divs (table : List Child) : ∀ o ∈ unpack true table, 
 example : unpack true [.caption [1], .row [[2, 3]], .row [[4]]] = [.div [1], .div [2, 3], .div [4]] := by decide
 example : unpack false [.caption [1], .row [[2, 3]], .row [[4]]] = [.item 1, .item 2, .item 3, .item 4] := by decide
 
+/-- **C07 (`split_table_to_columns` keeps the table's content).**  Laying a table out column by column keeps exactly what was below it - the captions' content included - when no row
+has more cells than the table has columns (`numcols` is their maximum). -/
+theorem c07_linearize_columns_keeps_content (n : Nat) (table : List Child) (h : ∀ r ∈ rowsOf table, r.length ≤ n) (x : Nat) :
+    x ∈ linearize n table ↔ x ∈ leaves table := by
+  rw [mem_leaves, linearize, List.mem_append]
+  apply or_congr Iff.rfl
+  simp only [List.mem_flatMap, List.mem_range, mem_columnOf]
+  constructor
+  · rintro ⟨c, _, r, hr, hx⟩
+    refine ⟨r, hr, ?_⟩
+    by_cases hc : c < r.length
+    · exact ⟨r[c], List.getElem_mem hc, by simpa [List.getD, List.getElem?_eq_getElem hc] using hx⟩
+    · simp [List.getD, List.getElem?_eq_none (Nat.le_of_not_lt hc)] at hx
+  · rintro ⟨r, hr, cell, hc, hx⟩
+    obtain ⟨c, hcl, hx'⟩ := mem_getD_of_mem r cell x hc hx
+    exact ⟨c, Nat.lt_of_lt_of_le hcl (h r hr), r, hr, hx'⟩
+
+example : linearize 2 [.caption [9], .row [[1], [2]], .row [[3], [4]]] = [9, 1, 3, 2, 4] := by decide
+
 end MwVerif.SingleCol
